@@ -183,7 +183,13 @@ def deep_tree_binary(ctx, seed):
         except Exception as ex:
             ctx.hit('interface-raises:' + name + ':' + type(ex).__name__, {"error": str(ex)[:200]}, case)
     ref = [v for v in vals.values() if v is not None]
-    if ref and max(ref) - min(ref) > 1e-5 * (1 + abs(min(ref))):
+    # ECOS' branch and bound accepts points within its integrality tolerance mi_int_tol = 1e-4 of the lattice, so its optimum of a 0/1
+    # program is exact only to about that (times the objective's scale); the other interfaces to 1e-5
+    tol_of = lambda nm: 2e-4 if nm == 'ecos' else 1e-5
+    exact = [v for nm, v in vals.items() if v is not None and nm != 'ecos']
+    anchor = (sum(exact) / len(exact)) if exact else None
+    bad = [nm for nm, v in vals.items() if v is not None and anchor is not None and abs(v - anchor) > tol_of(nm) * (1 + abs(anchor))]
+    if bad:
         ctx.hit('interfaces-disagree-on-optimum:deep-tree', {"values": vals}, case)
     else:
         ctx.count('deep-tree:agree')
